@@ -2,7 +2,7 @@
 (TLC-enumerated transitions of SodImpl and seeded random histories), executes
 them on the real code built from /repo's working tree, and lets TLC validate
 the recorded traces against SodTrace with the property's invariant."""
-import json, os, random, time, hashlib
+import json, os, random, re, subprocess, time, hashlib
 from . import vlib, gen
 from .vlib import log
 
@@ -198,6 +198,24 @@ def rnd_tests(ctx, n, label="rnd", **kw):
     return out
 
 
+_hang_budget = [6]
+
+
+def confirm_hang(ctx, w, binp, test, env=None, tries=3, timeout="30s"):
+    """A test stopped by the progress watchdog is only a verdict when it is stopped again when re-executed ALONE (no
+    other shard competing for the processors) under a three times longer watchdog: a saturated machine must not be
+    mistaken for a deadlock.  At most six tests are re-executed per check (each attempt may cost the whole delay)."""
+    if test is None or _hang_budget[0] <= 0:
+        return False
+    _hang_budget[0] -= 1
+    for i in range(tries):
+        sh = vlib.run_harness(binp, [dict(test, id="%s-confirm%d" % (test["id"], i))], w.sub("confirm-%s-%d" % (test["id"], i)), shards=1, per_test_timeout=timeout, env=env, max_hangs=1)
+        if any('"ev":"hang"' in l[:40] for _, tp in sh for l in open(tp)):
+            return True
+    log("NOTE watchdog: test %s was stopped once and completed %d times when re-executed alone: machine load, not a verdict" % (test["id"], tries))
+    return False
+
+
 def aux_tests(ctx, n, label="aux", mc=None, **kw):
     """Histories in which a second collection of the same database is written, deleted from, flushed and swept between
     the calls on the first one (harness/aux.go; oracle Conf_X): random ones, and a sample of model-derived ones."""
@@ -224,6 +242,10 @@ def check_C01(ctx, w):
     # Drop + Create on the live handle, and Flush(o) of single objects, at every position of the bounded histories
     tests += mc_tests(ctx, w, "dr", slots=2, kvals=2, avals=1, maxbatch=1, maxops=ctx.q(4, 5), bfilter="NoBatch", get=True, drop=True, flushone=True, limit=ctx.q(2000, 30000))
     tests += aux_tests(ctx, ctx.q(100, 1500), mc=ctx.rng.sample(tests, min(len(tests), ctx.q(300, 3000))), nops=ctx.q(25, 40))
+    # Create on the populated collection with other cache / async settings (one in three also asking for the opposite compression)
+    # (short flusher timeout: the flusher goroutine of a closed handle only exits once its timeout has elapsed)
+    tests += mc_tests(ctx, w, "sw", slots=2, kvals=2, avals=1, maxbatch=1, maxops=ctx.q(3, 4), bfilter="NoBatch", get=True, switch=True, limit=ctx.q(1500, 20000),
+                      convert_kw=dict(thr=2, tmo_ms=200, vclock=True))
     seq_pipeline(ctx, w, tests, ["Conf_C01", "Conf_X", "Conf_Drop", "Conf_C10"])
 
 
@@ -354,7 +376,8 @@ def check_C12(ctx, w):
             c.update(kw)
             return c
         return f
-    variants = [V(cache=True), V(**{"async": True}), V(gz=True, lc=True), V(plain=True), V(ext=".dat", cache=True, **{"async": True})]
+    # (custom schemas 2 and 3 only change which fields are indexed: U loses its index, V gets one)
+    variants = [V(cache=True), V(**{"async": True}), V(gz=True, lc=True), V(plain=True), V(ext=".dat", cache=True, **{"async": True}), V(cust=2), V(cust=3, cache=True)]
     if not ctx.quick:
         variants += [V(plain=True, cache=True, gz=True), V(plain=True, lc=True, **{"async": True}), V(gz=True, ext=".x"), V(lc=True, cache=True)]
     pair_pipeline(ctx, w, tests, variants)
@@ -369,6 +392,8 @@ def check_C05(ctx, w):
     tests = [gen.crashify(t) for t in mc_tests(ctx, w, "mc", slots=2, kvals=2, avals=2, maxbatch=2, maxops=ctx.q(3, 4), bfilter="PairBatch", get=False,
                                                  limit=ctx.q(250, 6000), cfgs="SyncCfgs")]
     tests += gen_tests(ctx, ctx.q(100, 3000), gen.crash_test, "cr", nops=ctx.q(3, 5))
+    # asynchronous configurations: crash points of deletes, FlushAll / FlushAllAndCommit / Commit and Close, and between calls with writes pending
+    tests += gen_tests(ctx, ctx.q(80, 2000), gen.async_crash_test, "acr", nops=ctx.q(3, 5))
     seq_pipeline(ctx, w, tests, ["Conf_C05"])
     count_events(ctx, w, "crash")
     disk_model(ctx, w)
@@ -391,7 +416,8 @@ def disk_model(ctx, w):
     listed known deviations enabled CrashSafe \\/ StaleShape must be an invariant (every violating crash point has the
     recorded shape); with no deviation the model must exhibit the finding (otherwise the deviation is noise)."""
     import glob, re
-    known = [k["deviation"] for k in load_known()["findings"] if k.get("status") == "known" and k["property"] == "C05"]
+    # (SodDisk models the synchronous write protocol; the asynchronous form of the finding, K03, is judged on recordings only)
+    known = [k["deviation"] for k in load_known()["findings"] if k.get("status") == "known" and k["property"] == "C05" and k["deviation"] in ("StaleIndex", "InPlaceWrite")]
     kw = dict(slots=", ".join(str(i) for i in range(1, ctx.q(2, 3) + 1)), maxops=ctx.q(3, 3))
     r = vlib.tlc("SodDisk", DISK_CFG % dict(dev=", ".join('"%s"' % d for d in known), **kw), w.sub("disk"), workers=vlib.NCPU, timeout=1500, heap="8g")
     ctx.mc_states += r.distinct
@@ -410,8 +436,12 @@ def disk_model(ctx, w):
     calls = 0
     for tp in glob.glob(w.path("run-*", "trace-*.ndjson")):
         cur = []
+        sync = True
         for line in open(tp):
-            if '"ev":"crash"' not in line[:30] and '"ev":"crash"' not in line:
+            if '"ev":"hdr"' in line:
+                sync = not json.loads(line)["cfg"]["async"]
+                continue
+            if not sync or '"ev":"crash"' not in line:
                 continue
             e = json.loads(line)
             if e.get("ev") != "crash":
@@ -456,11 +486,11 @@ def count_events(ctx, w, kind, inner=lambda e: e.get("k", 1) not in (0, e.get("n
 def check_C11(ctx, w):
     ctx.level = "fault_enumeration"
     ctx.rule = ("every subset of {remove object file} x {remove index entry (structural edit of schema.json)} x {add 0,1,2 valid object files with fresh uuids} x {remove schema.json} on databases of "
-                "0..3 (thorough: 0..4) objects (one in three with a moved index entry), all synchronous configurations; then the recovery procedure, more writes, reopen; exhaustive in the thorough tier; "
+                "0..3 (thorough: 0..5) objects (one in three with a moved index entry, one in three with asynchronous writes enabled), all storage configurations; then the recovery procedure, more writes, reopen; exhaustive in the thorough tier; "
                 "non-trivial = at least one damage")
     binp = vlib.build()
     uni = gen.universe(binp)
-    tests = gen.damage_tests(uni, ctx.rng, limit=None, nslots=ctx.q(3, 4))
+    tests = gen.damage_tests(uni, ctx.rng, limit=None, nslots=ctx.q(3, 5))
     ctx.exhaustive = True
     seq_pipeline(ctx, w, tests, ["Conf_C11", "Conf_C01"])
     # design level (spec/SodRepair.tla): every damage sequence on every consistent database of the bounded model
@@ -473,6 +503,29 @@ def check_C11(ctx, w):
     ctx.mc_transitions += rr.generated
     log("  [SodRepair] design-level damage / recovery model: %d states, ControlIff, RepairConverges, RepairKeepsFiles, NoFalsePositive hold" % rr.distinct)
     count_events(ctx, w, "damage", inner=lambda e: bool(e.get("rm") or e.get("add") or e.get("unindex") or e.get("rmschema")))
+    if not ctx.quick:
+        tlaps_proofs(ctx, w, "SodRepair", "SodRepairProofs")
+
+
+def tlaps_proofs(ctx, w, module, proofs):
+    """Design level, unbounded: the TLAPS proofs of spec/proofs/<proofs>.tla (for ARBITRARY constant sets) are re-checked by
+    tlapm.  A proof that no longer goes through means specification and proof have drifted apart: a NOTE, never a verdict on the code."""
+    import shutil
+    d = w.sub("tlaps")
+    shutil.copy(os.path.join(vlib.SPEC, module + ".tla"), d)
+    shutil.copy(os.path.join(vlib.SPEC, "proofs", proofs + ".tla"), d)
+    try:
+        p = subprocess.run(["timeout", "900", "tlapm", "--threads", str(vlib.NCPU), proofs + ".tla"], cwd=d, stdout=subprocess.PIPE, stderr=subprocess.STDOUT, text=True)
+    except OSError as e:
+        log("NOTE tlaps: tlapm could not be run (%s)" % e)
+        return
+    m = re.search(r"All (\d+) obligations? proved", p.stdout)
+    if m:
+        ctx.extra_cov["tlaps_obligations_proved"] = int(m.group(1))
+        log("  [tlaps] %s: all %s proof obligations proved (arbitrary Slots, Vals, MaxDamage): ControlIff, RepairConverges, NoFalsePositive, RepairKeepsFiles" % (proofs, m.group(1)))
+    else:
+        ctx.extra_cov["tlaps_obligations_proved"] = 0
+        log("NOTE tlaps: %s is not fully proved on this specification (proof drift, not a verdict):\n%s" % (proofs, p.stdout[-1500:]))
 
 
 def check_C08(ctx, w):
@@ -524,6 +577,8 @@ def check_C08(ctx, w):
                 cur, lines = e.get("id"), []
             lines.append(line)
             if e["ev"] in ("panic", "hang"):
+                if e["ev"] == "hang" and not confirm_hang(ctx, w, rb, rbyid.get(cur), env=dict(os.environ, GORACE="halt_on_error=1"), timeout="60s"):
+                    continue
                 races += 1
                 st = (e.get("stack") or "") + (e.get("msg") or "")
                 f = vlib.Failure(cur, "DataRace" if "DATA RACE" in st else "NoPanic", len(lines) - 1, e, list(lines), st[-1500:])
@@ -630,6 +685,8 @@ def check_C09(ctx, w):
         ctx.extra_cov["model_drift"] = True
     # the concurrent corpus with the progress watchdog: a hang is the observation that confirms a model deadlock
     ct = [gen.conc_test(uni, ctx.rng, i, nthreads=4, nops=3, cfgs=[(False, True), (True, True), (True, False), (False, False)], hang=True) for i in range(ctx.q(300, 4000))]
+    # every kind of reading call repeated against writers (a nested read lock blocks as soon as a writer arrives in between)
+    ct += gen.reentry_tests(uni, ctx.rng, reps=ctx.q(150, 600))
     for t in ct:
         t["norecord"] = True      # results are not judged here (settings switches, calls after Close): only progress is
     for t in ct:
@@ -637,6 +694,7 @@ def check_C09(ctx, w):
     shards = vlib.run_harness(binp, ct, w.sub("run-hang"), per_test_timeout="10s", max_hangs=2)
     ctx.tests += len(ct)
     hangs = 0
+    unconfirmed = 0
     byid = {t["id"]: t for t in ct}
     for part, tp in shards:
         cur, lines = None, []
@@ -646,11 +704,15 @@ def check_C09(ctx, w):
                 cur, lines = e.get("id"), []
             lines.append(line)
             if e["ev"] == "hang":
+                if not confirm_hang(ctx, w, binp, byid.get(cur)):
+                    unconfirmed += 1
+                    continue
                 hangs += 1
                 f = vlib.Failure(cur, "NoHang", len(lines) - 1, e, list(lines), (e.get("stack") or "")[-1500:])
                 record_failure(ctx, w, f, byid.get(cur), ["NoHang"], "watchdog")
     ctx.extra_cov["concurrent_programs_with_watchdog"] = len(ct)
     ctx.extra_cov["hangs_observed"] = hangs
+    ctx.extra_cov["watchdog_stops_not_confirmed"] = unconfirmed
     log("  [hang] %d concurrent programs with an eager flusher under the progress watchdog: %d hangs" % (len(ct), hangs))
     if bad and not ctx.extra_cov.get("model_drift"):
         # a model counterexample: only a reproduced hang is a violation (never a model-only verdict)
@@ -674,6 +736,9 @@ def check_C10(ctx, w):
     # argument in three spellings), each followed by the sweeps and the close + reopen of the model
     # and Drop + Create on the live handle: nothing pending or cached of the dropped database may come back
     tests += mc_tests(ctx, w, "f1_", slots=2, kvals=2, avals=1, maxbatch=1, maxops=ctx.q(4, 5), bfilter="NoBatch", get=False, flushone=True, drop=True, cfgs="AllCfgs", limit=ctx.q(3000, 30000))
+    # Create again on the same handle with other settings (asynchronous before and after): the flusher of the new settings takes over
+    tests += mc_tests(ctx, w, "sw_", slots=2, kvals=2, avals=1, maxbatch=1, maxops=ctx.q(4, 5), bfilter="NoBatch", get=False, flusher=True, switch=True, thr=2, tmo=2,
+                      cfgs="AsyncCfgs", limit=ctx.q(1500, 15000), convert_kw=dict(thr=2, tmo_ms=200, vclock=True))
     # "Close (for every collection)": a second collection with pending writes of its own; FlushAll* of one collection, Close of both
     tests += aux_tests(ctx, ctx.q(150, 2000), nops=ctx.q(20, 35), cfgs=[(False, True), (True, True)], p_reopen=0.15, p_del=0.25)
     seq_pipeline(ctx, w, tests, ["Conf_C10", "Conf_X", "Conf_Drop"])
@@ -693,7 +758,7 @@ def check_C17(ctx, w):
     tests = [t for t in tests if any(o["op"] == "switch" for o in t["ops"])]
     for t in tests:
         t["ops"] += [{"op": "obs"}, {"op": "reopen", "close": True, "create": False}, {"op": "obs"}]
-    seq_pipeline(ctx, w, tests, ["Conf_C17"])
+    seq_pipeline(ctx, w, tests, ["Conf_C17", "Conf_C10"])
     # shape part: all ordered pairs of 10 declarations of m.T x 3 storage configurations (+ extension change)
     binp = vlib.build()
     sd = w.sub("shapes")
